@@ -18,6 +18,7 @@ pub mod remote;
 pub mod e3;
 pub mod e3c;
 pub mod e3o;
+pub mod e3cfg;
 pub mod pure_c07f;
 pub mod pure_c17;
 pub mod pure_c18;
